@@ -162,6 +162,24 @@ func c21Observe(c *core.Check, f *core.Func) {
 		return ok && c21Named(sl.Elem(), "internal/metrics/datum", "BucketCount")
 	}
 	incs := c21BucketIncs(f)
+	if len(incs) == 0 {
+		// the bucket update may have been extracted into a helper method of the datum: that is a shape these
+		// rules do not follow — undecided, not a violation
+		moved := ""
+		core.InspectNoLit(f.Body, func(n ast.Node) bool {
+			if call, ok := n.(*ast.CallExpr); ok {
+				if cf := f.CalleeFunc(call); cf != nil && cf.Pkg == f.Pkg && len(c21BucketIncs(cf)) > 0 {
+					moved = cf.Key
+				}
+			}
+			return true
+		})
+		if moved != "" {
+			c.Undecided("C21-R1", bucketsObserve+"|helper", pos(c, f.Decl), "Observe no longer increments a bucket itself; the increment lives in "+moved+", which the selection and counting rules do not follow")
+			c.Undecided("C21-R2", bucketsObserve+"|helper", pos(c, f.Decl), "count and sum are updated in "+moved+": not followed")
+			return
+		}
+	}
 	var incPts []core.Point
 	for _, in := range incs {
 		incPts = append(incPts, in.hit.P)
